@@ -921,3 +921,8 @@ pub fn run(ctx: &mut Ctx) {
 pub fn replay(v: &serde_json::Value, obs: &mut Obs) -> Result<CheckResult, String> {
   replay_with::<Case>(v, obs, check)
 }
+
+/// libFuzzer entry: the bytes are the candidate string (lossy UTF-8).
+pub fn fuzz_decode(data: &[u8]) -> Option<serde_json::Value> {
+  serde_json::to_value(Case::Parse { s: String::from_utf8_lossy(data).into_owned() }).ok()
+}
